@@ -545,10 +545,12 @@ class SuccessionDiagram:
         """
         # Every stub node is reachable through an expanded node and
         # thus will be checked by the following code.
-        for i in self.expanded_ids():
+        for i in self.node_ids():
             other_i = other.find_node(self.node_data(i)["space"])
             if other_i is None:
                 return False
+            if not self.node_data(i)["expanded"]:
+                continue
             my_successors = self.node_successors(i)
             other_successors = []
             if other.node_data(other_i)["expanded"]:
